@@ -751,6 +751,41 @@ def store_sequences(ctx):
                           what="data store after %d set calls: %s is %s, expected %s" % (len(ops), bad[0], bad[1], bad[2]))
 
 
+def axis_guard(ctx):
+    """all series of a store live on one list of datetimes: a series offered on another list - also one of the
+    same length with the same first and last stamp - is refused, for any member, and the stored data stay as
+    they were"""
+    from rtctools.data.storage import DataStoreAccessor
+    from pymoca.backends.casadi.alias_relation import AliasRelation
+
+    class Acc(DataStoreAccessor):
+        @property
+        def alias_relation(self):
+            return AliasRelation()
+
+    base = [0, 3600, 7200, 14400, 18000, 21600]
+    others = {"inner stamp moved": [0, 3600, 10800, 14400, 18000, 21600], "history stamp moved": [0, 1800, 7200, 14400, 18000, 21600],
+              "shifted": [t + 900 for t in base], "longer": base + [25200], "same": list(base)}
+    for what, other in others.items():
+        for member in (0, 1):
+            acc = Acc()
+            acc.io.reference_datetime = dts(base[2])
+            vals = np.array([1.0, 2.0, 3.0, 4.0, 5.0, 6.0])
+            acc.io.set_timeseries("a", [dts(t) for t in base], vals, 0)
+            _ = acc.io.times_sec
+            try:
+                acc.io.set_timeseries("b", [dts(t) for t in other], np.arange(len(other), dtype=float), member)
+                accepted = True
+            except Exception:  # noqa: BLE001
+                accepted = False
+            ctx.count("axis_guard_cases")
+            ctx.case_done(core.fingerprint(["axis-guard", what, member]), True)
+            kept = [secs(t) for t in acc.io.datetimes] == base and list(acc.io.get_timeseries("a", 0)[1]) == vals.tolist()
+            if accepted != (what == "same") or not kept:
+                ctx.violation("store/other-axis", {"stored_axis": base, "offered_axis": other, "member": member, "accepted": accepted, "stored_series_intact": kept},
+                              what="a series on another list of datetimes (%s) was %s; first series intact: %s" % (what, "accepted" if accepted else "refused", kept))
+
+
 def shape(spec):
     return [spec["kind"], spec["backend"], spec["dt"], len(spec["axis"]), spec["k"], spec["E"], sorted(spec["series"]["0"]),
             [o["op"] for o in spec["ops"]], bool(spec.get("times_subset")), [sum(v is None for v in vals) > 0 for vals in spec["series"]["0"].values()]]
@@ -826,6 +861,7 @@ def run(ctx):
                         "export_stamps": obs["export"]["0"]["stamps"]})
     if not replay:
         store_sequences(ctx)
+        axis_guard(ctx)
     # agreement between back-ends
     for tri in triples:
         obs3 = [results[i] for i in tri]
